@@ -14,6 +14,49 @@ Definition nibble_check (b : Z) : bool :=
     (0 <=? byte_half b) && (byte_half b <? 256) &&
     (0 <=? nib_get b p) && (nib_get b p <=? 15)) [0; 1].
 
+Lemma nibble_check_all : forallb nibble_check all_bytes = true.
+Proof. vm_compute. reflexivity. Qed.
+
+Lemma in_all_bytes : forall b, 0 <= b < 256 -> In b all_bytes.
+Proof.
+  intros b Hb. unfold all_bytes. apply in_map_iff. exists (Z.to_nat b). split.
+  - apply Z2Nat.id. lia.
+  - apply in_seq. lia.
+Qed.
+
+Lemma land1_mod : forall pos, Z.land pos 1 = pos mod 2.
+Proof. intros pos. exact (Z.land_ones pos 1 ltac:(lia)). Qed.
+
+Lemma land1_cases : forall pos, Z.land pos 1 = 0 \/ Z.land pos 1 = 1.
+Proof. intros pos. rewrite land1_mod. pose proof (Z.mod_pos_bound pos 2 ltac:(lia)) as Hm. lia. Qed.
+
+Lemma land1_succ : forall pos, Z.land (pos + 1) 1 = 1 - Z.land pos 1.
+Proof. intros pos. rewrite !land1_mod. Z.div_mod_to_equations. lia. Qed.
+
+Lemma nib_get_par : forall b pos q, Z.land pos 1 = Z.land q 1 -> nib_get b pos = nib_get b q.
+Proof. intros b pos q Hpq. unfold nib_get, nib_shift. rewrite Hpq. reflexivity. Qed.
+
+Lemma nib_inc_par : forall b pos q, Z.land pos 1 = Z.land q 1 -> nib_inc b pos = nib_inc b q.
+Proof. intros b pos q Hpq. unfold nib_inc. rewrite (nib_get_par b pos q Hpq). unfold nib_shift. rewrite Hpq. reflexivity. Qed.
+
+Lemma nibble_at : forall b p, 0 <= b < 256 -> p = 0 \/ p = 1 ->
+  nib_get (nib_inc b p) p = Z.min 15 (nib_get b p + 1) /\
+  nib_get (nib_inc b p) (1 - p) = nib_get b (1 - p) /\
+  0 <= nib_inc b p < 256 /\
+  nib_get (byte_half b) p = nib_get b p / 2 /\
+  0 <= byte_half b < 256 /\
+  0 <= nib_get b p <= 15.
+Proof.
+  intros b p Hb Hp.
+  pose proof nibble_check_all as Hall. rewrite forallb_forall in Hall.
+  specialize (Hall b (in_all_bytes b Hb)). unfold nibble_check in Hall. rewrite forallb_forall in Hall.
+  assert (Hin : In p [0; 1]) by (cbn [In]; lia).
+  specialize (Hall p Hin). cbv beta in Hall.
+  rewrite !andb_true_iff in Hall.
+  destruct Hall as [[[[[[[[H1 H2] H3] H4] H5] H6] H7] H8] H9].
+  repeat split; lia.
+Qed.
+
 (* STATEMENT *)
 Lemma nibble_ops_correct : forall b pos, 0 <= b < 256 ->
   nib_get (nib_inc b pos) pos = Z.min 15 (nib_get b pos + 1) /\
@@ -23,55 +66,328 @@ Lemma nibble_ops_correct : forall b pos, 0 <= b < 256 ->
   0 <= byte_half b < 256 /\
   0 <= nib_get b pos <= 15.
 Proof.
-Admitted.
+  intros b pos Hb.
+  pose proof (land1_cases pos) as Hp.
+  pose proof (land1_succ pos) as Hs.
+  set (p := Z.land pos 1) in *.
+  pose proof (nibble_at b p Hb Hp) as Hat.
+  assert (Hpp : Z.land pos 1 = Z.land p 1) by (fold p; destruct Hp as [Hp|Hp]; rewrite Hp; reflexivity).
+  assert (Hqq : Z.land (pos + 1) 1 = Z.land (1 - p) 1) by (rewrite Hs; destruct Hp as [Hp|Hp]; rewrite Hp; reflexivity).
+  rewrite (nib_inc_par b pos p Hpp).
+  rewrite (nib_get_par (nib_inc b p) pos p Hpp).
+  rewrite (nib_get_par b pos p Hpp).
+  rewrite (nib_get_par (byte_half b) pos p Hpp).
+  rewrite (nib_get_par (nib_inc b p) (pos + 1) (1 - p) Hqq).
+  rewrite (nib_get_par b (pos + 1) (1 - p) Hqq).
+  exact Hat.
+Qed.
+
+(** ** List helpers for [set_nth] *)
+Lemma set_nth_length : forall (A : Type) (l : list A) n x, length (set_nth n x l) = length l.
+Proof.
+  intros A l. induction l as [|a t IH]; intros n x.
+  - destruct n; reflexivity.
+  - destruct n as [|n']; cbn [set_nth length].
+    + reflexivity.
+    + rewrite IH. reflexivity.
+Qed.
+
+Lemma nth_error_set_nth_same : forall (A : Type) (l : list A) n x,
+  (n < length l)%nat -> nth_error (set_nth n x l) n = Some x.
+Proof.
+  intros A l. induction l as [|a t IH]; intros n x Hn.
+  - cbn [length] in Hn. lia.
+  - destruct n as [|n']; cbn [set_nth nth_error].
+    + reflexivity.
+    + apply IH. cbn [length] in Hn. lia.
+Qed.
+
+Lemma nth_error_set_nth_other : forall (A : Type) (l : list A) n m x,
+  n <> m -> nth_error (set_nth n x l) m = nth_error l m.
+Proof.
+  intros A l. induction l as [|a t IH]; intros n m x Hnm.
+  - destruct n; reflexivity.
+  - destruct n as [|n']; destruct m as [|m']; cbn [set_nth nth_error].
+    + congruence.
+    + reflexivity.
+    + reflexivity.
+    + apply IH. congruence.
+Qed.
+
+Lemma set_nth_same : forall (A : Type) (l : list A) n x, nth_error l n = Some x -> set_nth n x l = l.
+Proof.
+  intros A l. induction l as [|a t IH]; intros n x Hn.
+  - destruct n; reflexivity.
+  - destruct n as [|n']; cbn [set_nth nth_error] in *.
+    + congruence.
+    + rewrite (IH n' x Hn). reflexivity.
+Qed.
+
+Lemma set_nth_Forall : forall (A : Type) (P : A -> Prop) (l : list A) n x,
+  Forall P l -> P x -> Forall P (set_nth n x l).
+Proof.
+  intros A P l. induction l as [|a t IH]; intros n x Hl Hx.
+  - destruct n; constructor.
+  - inversion Hl as [|a' t' Ha Ht]; subst.
+    destruct n as [|n']; cbn [set_nth].
+    + constructor; assumption.
+    + constructor; [assumption|]. apply IH; assumption.
+Qed.
 
 (** ** Row level *)
 Definition wf_row (row : list Z) : Prop := Forall (fun b => 0 <= b < 256) row.
+
+Lemma wf_row_nth : forall row n b, wf_row row -> nth_error row n = Some b -> 0 <= b < 256.
+Proof.
+  intros row n b Hwf Hn. unfold wf_row in Hwf. rewrite Forall_forall in Hwf.
+  apply Hwf. eapply nth_error_In. exact Hn.
+Qed.
+
+Lemma row_get_bound : forall row pos v, wf_row row -> row_get row pos = Some v -> 0 <= v <= 15.
+Proof.
+  intros row pos v Hwf Hg. unfold row_get in Hg.
+  destruct (nth_error row (Z.to_nat (pos / 2))) as [b|] eqn:Hn; [|discriminate].
+  inversion Hg; subst v.
+  pose proof (nibble_ops_correct b pos (wf_row_nth row _ b Hwf Hn)) as Hc. tauto.
+Qed.
 
 (* STATEMENT *)
 Lemma row_inc_get_same : forall row pos row', wf_row row -> 0 <= pos ->
   row_inc row pos = Some row' ->
   exists v, row_get row pos = Some v /\ row_get row' pos = Some (Z.min 15 (v + 1)) /\ 0 <= v <= 15.
 Proof.
-Admitted.
+  intros row pos row' Hwf Hpos Hinc. unfold row_inc in Hinc. unfold row_get.
+  destruct (nth_error row (Z.to_nat (pos / 2))) as [b|] eqn:Hn; [|discriminate].
+  inversion Hinc; subst row'. clear Hinc.
+  pose proof (nibble_ops_correct b pos (wf_row_nth row _ b Hwf Hn)) as (H1 & _ & _ & _ & _ & H6).
+  exists (nib_get b pos). split; [reflexivity|]. split; [|exact H6].
+  rewrite nth_error_set_nth_same.
+  - rewrite H1. reflexivity.
+  - apply nth_error_Some. congruence.
+Qed.
+
+Lemma same_byte_other_parity : forall pos q, 0 <= pos -> 0 <= q -> q <> pos ->
+  Z.to_nat (q / 2) = Z.to_nat (pos / 2) -> Z.land q 1 = Z.land (pos + 1) 1.
+Proof.
+  intros pos q Hpos Hq Hne Heq.
+  assert (Hd : q / 2 = pos / 2).
+  { apply Z2Nat.inj; [apply Z.div_pos; lia | apply Z.div_pos; lia | exact Heq]. }
+  rewrite !land1_mod. clear Heq. Z.div_mod_to_equations. lia.
+Qed.
 
 (* STATEMENT: incrementing one counter never disturbs another *)
 Lemma row_inc_local : forall row pos q row', wf_row row -> 0 <= pos -> 0 <= q -> q <> pos ->
   row_inc row pos = Some row' -> row_get row' q = row_get row q.
 Proof.
-Admitted.
+  intros row pos q row' Hwf Hpos Hq Hne Hinc. unfold row_inc in Hinc. unfold row_get.
+  destruct (nth_error row (Z.to_nat (pos / 2))) as [b|] eqn:Hn; [|discriminate].
+  inversion Hinc; subst row'. clear Hinc.
+  destruct (Nat.eq_dec (Z.to_nat (q / 2)) (Z.to_nat (pos / 2))) as [Heq|Hneq].
+  - rewrite Heq. rewrite Hn.
+    rewrite nth_error_set_nth_same by (apply nth_error_Some; congruence).
+    pose proof (same_byte_other_parity pos q Hpos Hq Hne Heq) as Hpar.
+    pose proof (nibble_ops_correct b pos (wf_row_nth row _ b Hwf Hn)) as (_ & H2 & _).
+    rewrite (nib_get_par (nib_inc b pos) q (pos + 1) Hpar).
+    rewrite (nib_get_par b q (pos + 1) Hpar).
+    rewrite H2. reflexivity.
+  - rewrite nth_error_set_nth_other by congruence. reflexivity.
+Qed.
 
 (* STATEMENT: a saturated counter stays saturated and the row is unchanged *)
 Lemma row_inc_saturated : forall row pos, wf_row row -> 0 <= pos ->
   row_get row pos = Some 15 -> row_inc row pos = Some row.
 Proof.
-Admitted.
+  intros row pos Hwf Hpos Hg. unfold row_get in Hg. unfold row_inc.
+  destruct (nth_error row (Z.to_nat (pos / 2))) as [b|] eqn:Hn; [|discriminate].
+  inversion Hg as [Hv]. clear Hg.
+  assert (Hb : nib_inc b pos = b).
+  { unfold nib_inc. rewrite Hv. reflexivity. }
+  rewrite Hb. rewrite (set_nth_same _ row _ b Hn). reflexivity.
+Qed.
 
 Lemma row_inc_wf : forall row pos row', wf_row row -> row_inc row pos = Some row' ->
   wf_row row' /\ length row' = length row.
 Proof.
-Admitted.
+  intros row pos row' Hwf Hinc. unfold row_inc in Hinc.
+  destruct (nth_error row (Z.to_nat (pos / 2))) as [b|] eqn:Hn; [|discriminate].
+  inversion Hinc; subst row'. clear Hinc. split.
+  - apply set_nth_Forall; [exact Hwf|].
+    pose proof (nibble_ops_correct b pos (wf_row_nth row _ b Hwf Hn)) as (_ & _ & H3 & _). exact H3.
+  - apply set_nth_length.
+Qed.
+
+Lemma row_half_wf : forall row, wf_row row -> wf_row (row_half row) /\ length (row_half row) = length row.
+Proof.
+  intros row Hwf. split.
+  - unfold wf_row, row_half in *. rewrite Forall_forall in *. intros x Hx.
+    apply in_map_iff in Hx. destruct Hx as (b & Hb & Hin). subst x.
+    pose proof (nibble_ops_correct b 0 (Hwf b Hin)) as (_ & _ & _ & _ & H5 & _). exact H5.
+  - unfold row_half. apply map_length.
+Qed.
 
 (* STATEMENT *)
 Lemma row_half_get : forall row pos v, wf_row row -> 0 <= pos ->
   row_get row pos = Some v -> row_get (row_half row) pos = Some (v / 2).
 Proof.
-Admitted.
+  intros row pos v Hwf Hpos Hg. unfold row_get in *. unfold row_half.
+  rewrite nth_error_map.
+  destruct (nth_error row (Z.to_nat (pos / 2))) as [b|] eqn:Hn; [|discriminate].
+  inversion Hg; subst v. cbn [option_map].
+  pose proof (nibble_ops_correct b pos (wf_row_nth row _ b Hwf Hn)) as (_ & _ & _ & H4 & _).
+  rewrite H4. reflexivity.
+Qed.
 
 (** ** Sketch level *)
 Record wf_fc (fc : fcounter) : Prop := {
-  wf_total : 2 <= fc_total fc;
-  wf_even : (fc_total fc) mod 2 = 0;
+  wf_total : 1 <= fc_total fc;
+  wf_shape : fc_total fc = 1 \/ (fc_total fc) mod 2 = 0;
   wf_nrows : length (fc_rows fc) = 4%nat;
   wf_nseeds : length (fc_seeds fc) = 4%nat;
-  wf_rows : Forall (fun r => wf_row r /\ Z.of_nat (length r) = fc_total fc / 2) (fc_rows fc)
+  wf_rows : Forall (fun r => wf_row r /\ Z.of_nat (length r) = Z.max 1 (fc_total fc / 2)) (fc_rows fc)
 }.
+
+Definition wf_rows_of (total : Z) (rows : list (list Z)) : Prop :=
+  Forall (fun r => wf_row r /\ Z.of_nat (length r) = Z.max 1 (total / 2)) rows.
+
+Lemma pos_in_row : forall total (r : list Z) pos, 1 <= total -> (total = 1 \/ total mod 2 = 0) ->
+  Z.of_nat (length r) = Z.max 1 (total / 2) -> 0 <= pos < total ->
+  (Z.to_nat (pos / 2) < length r)%nat.
+Proof.
+  intros total r pos Ht He Hl Hp.
+  assert (Hd : 0 <= pos / 2 < Z.max 1 (total / 2)) by (destruct He as [He|He]; Z.div_mod_to_equations; lia).
+  lia.
+Qed.
+
+Lemma row_get_defined : forall total r pos, 1 <= total -> (total = 1 \/ total mod 2 = 0) ->
+  wf_row r -> Z.of_nat (length r) = Z.max 1 (total / 2) -> 0 <= pos < total ->
+  exists v, row_get r pos = Some v /\ 0 <= v <= 15.
+Proof.
+  intros total r pos Ht He Hwf Hl Hp.
+  pose proof (pos_in_row total r pos Ht He Hl Hp) as Hlt.
+  destruct (row_get r pos) as [v|] eqn:Hg.
+  - exists v. split; [reflexivity|]. exact (row_get_bound r pos v Hwf Hg).
+  - exfalso. unfold row_get in Hg.
+    destruct (nth_error r (Z.to_nat (pos / 2))) as [b|] eqn:Hn; [discriminate|].
+    apply nth_error_None in Hn. lia.
+Qed.
+
+Lemma row_inc_defined : forall total (r : list Z) pos, 1 <= total -> (total = 1 \/ total mod 2 = 0) ->
+  Z.of_nat (length r) = Z.max 1 (total / 2) -> 0 <= pos < total ->
+  exists r', row_inc r pos = Some r'.
+Proof.
+  intros total r pos Ht He Hl Hp.
+  pose proof (pos_in_row total r pos Ht He Hl Hp) as Hlt.
+  unfold row_inc.
+  destruct (nth_error r (Z.to_nat (pos / 2))) as [b|] eqn:Hn.
+  - eexists. reflexivity.
+  - apply nth_error_None in Hn. lia.
+Qed.
+
+Lemma fc_pos_range : forall total x, 1 <= total -> 0 <= x mod total < total.
+Proof. intros total x Ht. apply Z.mod_pos_bound. lia. Qed.
+
+Lemma rows_min_defined : forall total h, 1 <= total -> (total = 1 \/ total mod 2 = 0) ->
+  forall rows seeds acc, wf_rows_of total rows ->
+  exists e, rows_min total h rows seeds acc = Some e /\ e <= acc /\ (0 <= acc -> 0 <= e).
+Proof.
+  intros total h Ht He rows.
+  induction rows as [|r rt IH]; intros seeds acc Hwf.
+  - exists acc. cbn [rows_min]. split; [reflexivity|]. lia.
+  - destruct seeds as [|s st].
+    + exists acc. cbn [rows_min]. split; [reflexivity|]. lia.
+    + inversion Hwf as [|r0 rt0 [Hr Hl] Hrt]; subst.
+      cbn [rows_min].
+      destruct (row_get_defined total r (Z.lxor h s mod total) Ht He Hr Hl (fc_pos_range total _ Ht))
+        as (v & Hg & Hv).
+      rewrite Hg.
+      destruct (IH st (Z.min acc v) Hrt) as (e & Hm & Hle & Hge).
+      exists e. split; [exact Hm|]. lia.
+Qed.
+
+Lemma rows_min_first_bound : forall total h r rt s st acc e, wf_row r ->
+  rows_min total h (r :: rt) (s :: st) acc = Some e ->
+  exists v, row_get r (Z.lxor h s mod total) = Some v /\ 0 <= v <= 15 /\
+            rows_min total h rt st (Z.min acc v) = Some e.
+Proof.
+  intros total h r rt s st acc e Hr Hm. cbn [rows_min] in Hm.
+  destruct (row_get r (Z.lxor h s mod total)) as [v|] eqn:Hg; [|discriminate].
+  exists v. split; [reflexivity|]. split; [|exact Hm]. exact (row_get_bound r _ v Hr Hg).
+Qed.
+
+(** with at least one row, any accumulator >= 15 gives the same minimum *)
+Lemma rows_min_acc15 : forall total h r rt s st acc, wf_row r -> 15 <= acc ->
+  rows_min total h (r :: rt) (s :: st) acc = rows_min total h (r :: rt) (s :: st) 15.
+Proof.
+  intros total h r rt s st acc Hr Hacc. cbn [rows_min].
+  destruct (row_get r (Z.lxor h s mod total)) as [v|] eqn:Hg; [|reflexivity].
+  pose proof (row_get_bound r _ v Hr Hg) as Hv.
+  replace (Z.min acc v) with (Z.min 15 v) by lia. reflexivity.
+Qed.
 
 (** the estimate of a well-formed sketch is defined (no index is out of bounds) *)
 (* STATEMENT *)
 Lemma fc_estimate_defined : forall fc h, wf_fc fc -> exists e, fc_estimate fc h = Some e /\ 0 <= e <= 15.
 Proof.
-Admitted.
+  intros fc h Hwf. destruct Hwf as [Ht He Hnr Hns Hrows]. unfold fc_estimate.
+  destruct (rows_min_defined (fc_total fc) h Ht He (fc_rows fc) (fc_seeds fc) 255 Hrows) as (e & Hm & Hle & Hge).
+  exists e. split; [exact Hm|].
+  destruct (fc_rows fc) as [|r rt]; [cbn [length] in Hnr; lia|].
+  destruct (fc_seeds fc) as [|s st]; [cbn [length] in Hns; lia|].
+  inversion Hrows as [|r0 rt0 [Hr Hl] Hrt]; subst.
+  destruct (rows_min_first_bound _ _ _ _ _ _ _ _ Hr Hm) as (v & Hg & Hv & Hm').
+  destruct (rows_min_defined (fc_total fc) h Ht He rt st (Z.min 255 v) Hrt) as (e' & Hm2 & Hle2 & Hge2).
+  rewrite Hm' in Hm2. inversion Hm2; subst e'. lia.
+Qed.
+
+Lemma rows_inc_spec : forall total h, 1 <= total -> (total = 1 \/ total mod 2 = 0) ->
+  forall rows seeds, wf_rows_of total rows ->
+  exists rows', rows_inc total h rows seeds = Some rows' /\ wf_rows_of total rows' /\
+    length rows' = length rows /\
+    (forall acc e, rows_min total h rows seeds acc = Some e ->
+       rows_min total h rows' seeds (Z.min 15 (acc + 1)) = Some (Z.min 15 (e + 1))) /\
+    (forall h' acc acc' e e', acc <= acc' ->
+       rows_min total h' rows seeds acc = Some e ->
+       rows_min total h' rows' seeds acc' = Some e' -> e <= e').
+Proof.
+  intros total h Ht He rows.
+  induction rows as [|r rt IH]; intros seeds Hwf.
+  - exists []. cbn [rows_inc rows_min]. split; [reflexivity|]. split; [constructor|]. split; [reflexivity|].
+    split.
+    + intros acc e Hm. inversion Hm; subst. reflexivity.
+    + intros h' acc acc' e e' Hle Hm Hm'. inversion Hm; inversion Hm'; subst. exact Hle.
+  - destruct seeds as [|s st].
+    + exists (r :: rt). cbn [rows_inc rows_min]. split; [reflexivity|]. split; [exact Hwf|]. split; [reflexivity|].
+      split.
+      * intros acc e Hm. inversion Hm; subst. reflexivity.
+      * intros h' acc acc' e e' Hle Hm Hm'. inversion Hm; inversion Hm'; subst. exact Hle.
+    + inversion Hwf as [|r0 rt0 [Hr Hl] Hrt]; subst.
+      pose proof (fc_pos_range total (Z.lxor h s) Ht) as Hp.
+      destruct (row_inc_defined total r _ Ht He Hl Hp) as (r' & Hinc).
+      destruct (IH st Hrt) as (rt' & Hincs & Hwf' & Hlen' & Hsame & Hmono).
+      destruct (row_inc_wf r _ r' Hr Hinc) as (Hr' & Hl').
+      exists (r' :: rt'). cbn [rows_inc]. rewrite Hinc, Hincs.
+      split; [reflexivity|]. split.
+      { constructor; [|exact Hwf']. split; [exact Hr'|]. rewrite Hl'. exact Hl. }
+      split; [cbn [length]; rewrite Hlen'; reflexivity|].
+      split.
+      * intros acc e Hm. cbn [rows_min] in *.
+        destruct (row_inc_get_same r _ r' Hr (proj1 Hp) Hinc) as (v & Hg & Hg' & Hv).
+        rewrite Hg in Hm. rewrite Hg'.
+        replace (Z.min (Z.min 15 (acc + 1)) (Z.min 15 (v + 1))) with (Z.min 15 (Z.min acc v + 1)) by lia.
+        apply Hsame. exact Hm.
+      * intros h' acc acc' e e' Hle Hm Hm'. cbn [rows_min] in *.
+        pose proof (fc_pos_range total (Z.lxor h' s) Ht) as Hq.
+        destruct (row_get r (Z.lxor h' s mod total)) as [v|] eqn:Hg; [|discriminate].
+        destruct (row_get r' (Z.lxor h' s mod total)) as [v'|] eqn:Hg'; [|discriminate].
+        assert (Hvv : v <= v').
+        { destruct (Z.eq_dec (Z.lxor h' s mod total) (Z.lxor h s mod total)) as [Heq|Hneq].
+          - rewrite Heq in Hg, Hg'.
+            destruct (row_inc_get_same r _ r' Hr (proj1 Hp) Hinc) as (v0 & Hg0 & Hg0' & Hv0).
+            rewrite Hg in Hg0. rewrite Hg' in Hg0'. inversion Hg0; inversion Hg0'; subst. lia.
+          - pose proof (row_inc_local r _ _ r' Hr (proj1 Hp) (proj1 Hq) Hneq Hinc) as Hloc.
+            rewrite Hloc in Hg'. rewrite Hg in Hg'. inversion Hg'; subst. lia. }
+        apply (Hmono h' (Z.min acc v) (Z.min acc' v') e e'); [lia|exact Hm|exact Hm'].
+Qed.
 
 (* STATEMENT *)
 Lemma fc_increment_spec : forall fc h, wf_fc fc ->
@@ -79,28 +395,215 @@ Lemma fc_increment_spec : forall fc h, wf_fc fc ->
     (forall e, fc_estimate fc h = Some e -> fc_estimate fc' h = Some (Z.min 15 (e + 1))) /\
     (forall h' e e', fc_estimate fc h' = Some e -> fc_estimate fc' h' = Some e' -> e <= e').
 Proof.
-Admitted.
+  intros fc h Hwf. destruct Hwf as [Ht He Hnr Hns Hrows].
+  destruct (rows_inc_spec (fc_total fc) h Ht He (fc_rows fc) (fc_seeds fc) Hrows)
+    as (rows' & Hinc & Hwf' & Hlen' & Hsame & Hmono).
+  unfold fc_increment. rewrite Hinc.
+  eexists. split; [reflexivity|].
+  unfold fc_estimate. cbn [fc_rows fc_seeds fc_total].
+  split.
+  { constructor; cbn [fc_rows fc_seeds fc_total].
+    - exact Ht.
+    - exact He.
+    - rewrite Hlen'. exact Hnr.
+    - exact Hns.
+    - exact Hwf'. }
+  split; [reflexivity|]. split; [reflexivity|]. split.
+  - intros e Hm.
+    destruct rows' as [|r' rt']; [cbn [length] in Hlen'; lia|].
+    destruct (fc_seeds fc) as [|s st]; [cbn [length] in Hns; lia|].
+    inversion Hwf' as [|r0 rt0 [Hr' Hl'] Hrt']; subst.
+    rewrite (rows_min_acc15 (fc_total fc) h r' rt' s st 255 Hr' ltac:(lia)).
+    apply (Hsame 255 e) in Hm. exact Hm.
+  - intros h' e e' Hm Hm'. apply (Hmono h' 255 255 e e'); [lia|exact Hm|exact Hm'].
+Qed.
+
+Lemma rows_min_half : forall total h rows seeds acc e, wf_rows_of total rows -> 1 <= total ->
+  rows_min total h rows seeds acc = Some e ->
+  rows_min total h (map row_half rows) seeds (acc / 2) = Some (e / 2).
+Proof.
+  intros total h rows.
+  induction rows as [|r rt IH]; intros seeds acc e Hwf Ht Hm.
+  - cbn [map rows_min] in *. inversion Hm; subst. reflexivity.
+  - destruct seeds as [|s st].
+    + cbn [map rows_min] in *. inversion Hm; subst. reflexivity.
+    + inversion Hwf as [|r0 rt0 [Hr Hl] Hrt]; subst.
+      cbn [map rows_min] in *.
+      pose proof (fc_pos_range total (Z.lxor h s) Ht) as Hp.
+      destruct (row_get r (Z.lxor h s mod total)) as [v|] eqn:Hg; [|discriminate].
+      rewrite (row_half_get r _ v Hr (proj1 Hp) Hg).
+      replace (Z.min (acc / 2) (v / 2)) with (Z.min acc v / 2) by (Z.div_mod_to_equations; lia).
+      apply IH; assumption.
+Qed.
 
 (* STATEMENT: halving *)
 Lemma fc_reset_spec : forall fc, wf_fc fc -> wf_fc (fc_reset fc) /\
   forall h e, fc_estimate fc h = Some e -> fc_estimate (fc_reset fc) h = Some (e / 2).
 Proof.
-Admitted.
+  intros fc Hwf. destruct Hwf as [Ht He Hnr Hns Hrows]. split.
+  - constructor; unfold fc_reset; cbn [fc_rows fc_seeds fc_total].
+    + exact Ht.
+    + exact He.
+    + rewrite map_length. exact Hnr.
+    + exact Hns.
+    + rewrite Forall_forall in *. intros x Hx. apply in_map_iff in Hx.
+      destruct Hx as (r & Hrx & Hin). subst x.
+      destruct (Hrows r Hin) as [Hr Hl]. destruct (row_half_wf r Hr) as [Hr' Hl'].
+      split; [exact Hr'|]. rewrite Hl'. exact Hl.
+  - intros h e Hm. unfold fc_estimate, fc_reset in *. cbn [fc_rows fc_seeds fc_total].
+    destruct (fc_rows fc) as [|r rt]; [cbn [length] in Hnr; lia|].
+    destruct (fc_seeds fc) as [|s st]; [cbn [length] in Hns; lia|].
+    inversion Hrows as [|r0 rt0 [Hr Hl] Hrt]; subst.
+    cbn [map rows_min] in *.
+    pose proof (fc_pos_range (fc_total fc) (Z.lxor h s) Ht) as Hp.
+    destruct (row_get r (Z.lxor h s mod fc_total fc)) as [v|] eqn:Hg; [|discriminate].
+    pose proof (row_get_bound r _ v Hr Hg) as Hv.
+    rewrite (row_half_get r _ v Hr (proj1 Hp) Hg).
+    replace (Z.min 255 (v / 2)) with (Z.min 255 v / 2) by (Z.div_mod_to_equations; lia).
+    apply rows_min_half; assumption.
+Qed.
 
 (** ** Sizing *)
 Definition is_pow2 (n : Z) : Prop := exists k, 0 <= k /\ n = 2 ^ k.
+
+(** [y] has bit [i] set iff [x] has some bit set in the window [i, i+m) *)
+Definition smeared (m y x : Z) : Prop :=
+  forall i, 0 <= i -> (Z.testbit y i = true <-> exists j, i <= j < i + m /\ Z.testbit x j = true).
+
+Lemma smeared_1 : forall x, smeared 1 x x.
+Proof.
+  intros x i Hi. split.
+  - intros Hb. exists i. split; [lia|exact Hb].
+  - intros (j & Hj & Hb). replace i with j by lia. exact Hb.
+Qed.
+
+Lemma smeared_step : forall m y x, 0 < m -> smeared m y x -> smeared (2 * m) (smear y m) x.
+Proof.
+  intros m y x Hm Hs i Hi. unfold smear.
+  rewrite Z.lor_spec, (Z.shiftr_spec y m i Hi), orb_true_iff.
+  rewrite (Hs i Hi), (Hs (i + m) ltac:(lia)).
+  split.
+  - intros [(j & Hj & Hb)|(j & Hj & Hb)]; exists j; (split; [lia|exact Hb]).
+  - intros (j & Hj & Hb). destruct (Z_lt_le_dec j (i + m)) as [Hlt|Hge].
+    + left. exists j. split; [lia|exact Hb].
+    + right. exists j. split; [lia|exact Hb].
+Qed.
+
+Lemma smeared_64_ones : forall y x, 0 < x < 2 ^ 64 -> smeared 64 y x -> 0 <= y ->
+  y = Z.ones (Z.log2 x + 1).
+Proof.
+  intros y x Hx Hs Hy.
+  assert (Hlog : 0 <= Z.log2 x < 64).
+  { split; [apply Z.log2_nonneg|]. apply Z.log2_lt_pow2; lia. }
+  apply Z.bits_inj'. intros i Hi.
+  rewrite Z.testbit_ones by lia.
+  destruct (Z.testbit y i) eqn:Hb.
+  - apply (Hs i Hi) in Hb. destruct Hb as (j & Hj & Hbj).
+    destruct (Z_lt_le_dec (Z.log2 x) j) as [Hlt|Hge].
+    + rewrite (Z.bits_above_log2 x j) in Hbj by lia. discriminate.
+    + symmetry. lia.
+  - destruct (Z_lt_le_dec (Z.log2 x) i) as [Hlt|Hge].
+    + symmetry. lia.
+    + exfalso. assert (Ht : Z.testbit y i = true).
+      { apply (Hs i Hi). exists (Z.log2 x). split; [lia|]. apply Z.bit_log2. lia. }
+      congruence.
+Qed.
+
+Lemma smear_nonneg : forall x k, 0 <= x -> 0 <= smear x k.
+Proof.
+  intros x k Hx. unfold smear. apply Z.lor_nonneg. split; [exact Hx|].
+  apply Z.shiftr_nonneg. exact Hx.
+Qed.
+
+Lemma two64_pow : two64 = 2 ^ 64.
+Proof. reflexivity. Qed.
+
+Lemma two63_pow : two63 = 2 ^ 63.
+Proof. reflexivity. Qed.
+
+Lemma next_power_2_eq : forall c, 2 <= c <= two63 -> next_power_2 c = 2 ^ (Z.log2 (c - 1) + 1).
+Proof.
+  intros c Hc. rewrite two63_pow in Hc.
+  assert (H6364 : 2 ^ 63 < 2 ^ 64) by (apply Z.pow_lt_mono_r; lia).
+  unfold next_power_2.
+  assert (Hw : wrap_u64 (c - 1) = c - 1).
+  { unfold wrap_u64. rewrite two64_pow. apply Z.mod_small. lia. }
+  rewrite Hw.
+  set (x := c - 1) in *.
+  assert (Hx : 0 < x < 2 ^ 64) by lia.
+  assert (Hx63 : x < 2 ^ 63) by lia.
+  pose proof (smeared_1 x) as S0.
+  pose proof (smeared_step 1 _ x ltac:(lia) S0) as S1. change (2 * 1) with 2 in S1.
+  pose proof (smeared_step 2 _ x ltac:(lia) S1) as S2. change (2 * 2) with 4 in S2.
+  pose proof (smeared_step 4 _ x ltac:(lia) S2) as S3. change (2 * 4) with 8 in S3.
+  pose proof (smeared_step 8 _ x ltac:(lia) S3) as S4. change (2 * 8) with 16 in S4.
+  pose proof (smeared_step 16 _ x ltac:(lia) S4) as S5. change (2 * 16) with 32 in S5.
+  pose proof (smeared_step 32 _ x ltac:(lia) S5) as S6. change (2 * 32) with 64 in S6.
+  cbv zeta.
+  set (y := smear (smear (smear (smear (smear (smear x 1) 2) 4) 8) 16) 32) in *.
+  assert (Hy : 0 <= y).
+  { unfold y. repeat apply smear_nonneg. lia. }
+  rewrite (smeared_64_ones y x Hx S6 Hy).
+  assert (Hlog : 0 <= Z.log2 x < 63).
+  { split; [apply Z.log2_nonneg|]. apply Z.log2_lt_pow2; lia. }
+  rewrite Z.ones_equiv.
+  replace (Z.pred (2 ^ (Z.log2 x + 1)) + 1) with (2 ^ (Z.log2 x + 1)) by lia.
+  unfold wrap_u64. rewrite two64_pow. apply Z.mod_small.
+  split.
+  - apply Z.pow_nonneg. lia.
+  - apply Z.pow_lt_mono_r; lia.
+Qed.
 
 (* STATEMENT: for 1 <= c <= 2^63 the result is the least power of two >= c *)
 Lemma next_power_2_spec : forall c, 1 <= c <= two63 ->
   is_pow2 (next_power_2 c) /\ c <= next_power_2 c /\
   (forall m, is_pow2 m -> c <= m -> next_power_2 c <= m).
 Proof.
-Admitted.
+  intros c Hc.
+  destruct (Z.eq_dec c 1) as [H1|H1].
+  - subst c. assert (Hn : next_power_2 1 = 1) by (vm_compute; reflexivity). rewrite Hn.
+    split; [exists 0; split; [lia|reflexivity]|]. split; [lia|].
+    intros m Hm Hle. exact Hle.
+  - assert (Hc2 : 2 <= c <= two63) by lia.
+    rewrite (next_power_2_eq c Hc2).
+    assert (Hx : 0 < c - 1) by lia.
+    pose proof (Z.log2_spec (c - 1) Hx) as Hspec.
+    pose proof (Z.log2_nonneg (c - 1)) as Hlog.
+    replace (Z.succ (Z.log2 (c - 1))) with (Z.log2 (c - 1) + 1) in Hspec by lia.
+    split; [exists (Z.log2 (c - 1) + 1); split; [lia|reflexivity]|].
+    split; [lia|].
+    intros m (j & Hj & Hm) Hle. subst m.
+    assert (Hlt : 2 ^ Z.log2 (c - 1) < 2 ^ j) by lia.
+    apply Z.pow_lt_mono_r_iff in Hlt; [|lia|lia].
+    apply Z.pow_le_mono_r; lia.
+Qed.
+
+Lemma pow2_even : forall n, is_pow2 n -> 2 <= n -> n mod 2 = 0.
+Proof.
+  intros n (k & Hk & Hn) H2. subst n.
+  destruct (Z.eq_dec k 0) as [H0|H0].
+  - subst k. change (2 ^ 0) with 1 in H2. lia.
+  - replace k with (Z.succ (k - 1)) by lia. rewrite Z.pow_succ_r by lia.
+    rewrite Z.mul_comm. apply Z_mod_mult.
+Qed.
 
 (* STATEMENT *)
-Lemma fc_new_wf : forall c seeds, 2 <= c <= two63 -> length seeds = 4%nat -> wf_fc (fc_new c seeds).
+Lemma fc_new_wf : forall c seeds, 1 <= c <= two63 -> length seeds = 4%nat -> wf_fc (fc_new c seeds).
 Proof.
-Admitted.
+  intros c seeds Hc Hs.
+  destruct (next_power_2_spec c ltac:(lia)) as (Hp & Hle & _).
+  unfold fc_new. cbv zeta.
+  set (total := next_power_2 c) in *.
+  constructor; cbn [fc_rows fc_seeds fc_total].
+  - lia.
+  - destruct (Z.eq_dec total 1) as [H1|H1]; [left; exact H1|right].
+    apply pow2_even; [exact Hp|lia].
+  - apply repeat_length.
+  - exact Hs.
+  - apply Forall_forall. intros r Hr. apply repeat_spec in Hr. subst r. split.
+    + unfold wf_row. apply Forall_forall. intros b Hb. apply repeat_spec in Hb. subst b. lia.
+    + rewrite repeat_length. apply Z2Nat.id. lia.
+Qed.
 
 (** ** TinyLFU level *)
 Definition wf_lfu (l : tinylfu) : Prop := wf_fc (lfu_fc l) /\ 0 <= lfu_incs l < lfu_reset_at l.
@@ -108,9 +611,17 @@ Definition wf_lfu (l : tinylfu) : Prop := wf_fc (lfu_fc l) /\ 0 <= lfu_incs l < 
 Definition est (l : tinylfu) (h : Z) : Z := match fc_estimate (lfu_fc l) h with Some e => e | None => 0 end.
 
 (* STATEMENT *)
-Lemma lfu_new_wf : forall c seeds, 2 <= c <= two63 -> length seeds = 4%nat -> wf_lfu (lfu_new c seeds).
+Lemma lfu_new_wf : forall c seeds, 1 <= c <= two63 -> length seeds = 4%nat -> wf_lfu (lfu_new c seeds).
 Proof.
-Admitted.
+  intros c seeds Hc Hs. unfold wf_lfu, lfu_new. cbn [lfu_fc lfu_incs lfu_reset_at].
+  split; [apply fc_new_wf; assumption|lia].
+Qed.
+
+Lemma est_bound : forall l h, wf_lfu l -> 0 <= est l h <= 15.
+Proof.
+  intros l h [Hfc _]. unfold est.
+  destruct (fc_estimate_defined (lfu_fc l) h Hfc) as (e & He & Hb). rewrite He. exact Hb.
+Qed.
 
 (** One access: never panics on a well-formed sketch, ages exactly when the counter of recorded accesses reaches
     the threshold and not before. *)
@@ -128,11 +639,101 @@ Lemma lfu_access_spec : forall l h had, wf_lfu l -> door_admissible (lfu_door l)
                   lfu_fc l' = fc_reset fc1 /\
                   (forall h' e, fc_estimate fc1 h' = Some e -> est l' h' = e / 2)).
 Proof.
-Admitted.
+  intros l h had [Hfc Hincs] Hadm.
+  unfold lfu_access. rewrite Hadm. cbn [negb].
+  (* the sketch after the (optional) increment *)
+  assert (Hfc1 : exists fc1, (if had then fc_increment (lfu_fc l) h else Some (lfu_fc l)) = Some fc1 /\
+            wf_fc fc1 /\
+            (forall e, fc_estimate (lfu_fc l) h = Some e ->
+                       fc_estimate fc1 h = Some (if had then Z.min 15 (e + 1) else e)) /\
+            (forall h' e e', fc_estimate (lfu_fc l) h' = Some e -> fc_estimate fc1 h' = Some e' -> e <= e')).
+  { destruct had.
+    - destruct (fc_increment_spec (lfu_fc l) h Hfc) as (fc' & Hi & Hwf' & _ & _ & Hsame & Hmono).
+      exists fc'. split; [exact Hi|]. split; [exact Hwf'|]. split; [exact Hsame|exact Hmono].
+    - exists (lfu_fc l). split; [reflexivity|]. split; [exact Hfc|]. split.
+      + intros e He. exact He.
+      + intros h' e e' He He'. rewrite He in He'. inversion He'; subst. lia. }
+  destruct Hfc1 as (fc1 & Hstep & Hwf1 & Hsame & Hmono).
+  rewrite Hstep.
+  destruct (lfu_reset_at l <=? lfu_incs l + 1) eqn:Hcmp.
+  - (* ageing *)
+    destruct (fc_reset_spec fc1 Hwf1) as (Hwfr & Hhalf).
+    eexists. split; [reflexivity|].
+    unfold wf_lfu, est. cbn [lfu_fc lfu_door lfu_incs lfu_reset_at].
+    split; [split; [exact Hwfr|lia]|].
+    split; [reflexivity|].
+    split; [intros Hlt; lia|].
+    intros _. split; [reflexivity|]. split; [reflexivity|].
+    exists fc1. split; [reflexivity|]. split; [reflexivity|].
+    intros h' e He. rewrite (Hhalf h' e He). reflexivity.
+  - (* no ageing *)
+    eexists. split; [reflexivity|].
+    unfold wf_lfu, est. cbn [lfu_fc lfu_door lfu_incs lfu_reset_at].
+    split; [split; [exact Hwf1|lia]|].
+    split; [reflexivity|].
+    split; [|intros Hge; lia].
+    intros _. split; [reflexivity|]. split; [destruct had; reflexivity|].
+    split.
+    + destruct (fc_estimate_defined (lfu_fc l) h Hfc) as (e & He & Hb).
+      rewrite He. rewrite (Hsame e He). reflexivity.
+    + intros h'.
+      destruct (fc_estimate_defined (lfu_fc l) h' Hfc) as (e & He & Hb).
+      destruct (fc_estimate_defined fc1 h' Hwf1) as (e' & He' & Hb').
+      rewrite He, He'. exact (Hmono h' e e' He He').
+Qed.
 
 (** number of accesses of [h] in a stream *)
 Fixpoint accesses (h : Z) (hs : list (Z * bool)) : Z :=
   match hs with [] => 0 | (x, _) :: t => (if Z.eqb x h then 1 else 0) + accesses h t end.
+
+Lemma accesses_nonneg : forall h hs, 0 <= accesses h hs.
+Proof.
+  intros h hs. induction hs as [|[x b] t IH]; cbn [accesses]; [lia|].
+  destruct (x =? h); lia.
+Qed.
+
+(** 1 when [h] is known to the doorkeeper, else 0 *)
+Definition bonus (l : tinylfu) (h : Z) : Z := if zmem h (lfu_door l) then 1 else 0.
+
+Lemma lfu_access_admissible : forall l h had l', lfu_access l h had = LOk l' ->
+  door_admissible (lfu_door l) h had = true.
+Proof.
+  intros l h had l' Ha. unfold lfu_access in Ha.
+  destruct (door_admissible (lfu_door l) h had); [reflexivity|]. cbn [negb] in Ha. discriminate.
+Qed.
+
+Lemma run_invariant : forall h hs l l', wf_lfu l ->
+  lfu_incs l + Z.of_nat (length hs) < lfu_reset_at l ->
+  lfu_run l hs = LOk l' ->
+  wf_lfu l' /\ Z.min 15 (est l h + accesses h hs) + bonus l h <= est l' h + bonus l' h.
+Proof.
+  intros h hs. induction hs as [|[x had] t IH]; intros l l' Hwf Hlen Hrun.
+  - cbn [lfu_run accesses] in *. inversion Hrun; subst l'. split; [exact Hwf|].
+    pose proof (est_bound l h Hwf) as Hb. lia.
+  - cbn [lfu_run accesses length] in *.
+    destruct (lfu_access l x had) as [l1| |] eqn:Ha; [|discriminate|discriminate].
+    pose proof (lfu_access_admissible l x had l1 Ha) as Hadm.
+    destruct (lfu_access_spec l x had Hwf Hadm) as (l1' & Ha' & Hwf1 & Hra & Hno & _).
+    rewrite Ha in Ha'. inversion Ha'; subst l1'. clear Ha'.
+    destruct (Hno ltac:(lia)) as (Hincs1 & Hdoor1 & Hest1 & Hmono1).
+    destruct (IH l1 l' Hwf1 ltac:(lia) Hrun) as (Hwf' & Hinv).
+    split; [exact Hwf'|].
+    pose proof (accesses_nonneg h t) as Hacc.
+    pose proof (est_bound l h Hwf) as Hb.
+    pose proof (est_bound l1 h Hwf1) as Hb1.
+    pose proof (Hmono1 h) as Hm.
+    unfold bonus in *. rewrite Hdoor1 in Hinv.
+    unfold door_admissible in Hadm.
+    destruct (Z.eqb_spec x h) as [Hxh|Hxh].
+    + subst x. destruct had.
+      * lia.
+      * cbn [zmem] in Hinv. rewrite Z.eqb_refl in Hinv.
+        destruct (zmem h (lfu_door l)); [discriminate|]. lia.
+    + destruct had.
+      * lia.
+      * cbn [zmem] in Hinv.
+        destruct (Z.eqb_spec h x) as [Hhx|Hhx]; [congruence|]. lia.
+Qed.
 
 (* STATEMENT: within one ageing window the estimate never under-counts, for every admissible bloom oracle *)
 Lemma never_undercounts : forall hs l l' h ans e,
@@ -142,14 +743,45 @@ Lemma never_undercounts : forall hs l l' h ans e,
   lfu_estimate l' h ans = LOk e ->
   Z.min 15 (accesses h hs) <= e /\ e <= 16.
 Proof.
-Admitted.
+  intros hs l l' h ans e Hwf Hlen Hrun Hest.
+  destruct (run_invariant h hs l l' Hwf Hlen Hrun) as (Hwf' & Hinv).
+  pose proof (est_bound l h Hwf) as Hb.
+  pose proof (est_bound l' h Hwf') as Hb'.
+  pose proof (accesses_nonneg h hs) as Hacc.
+  set (el := est l h) in *. clearbody el.
+  unfold lfu_estimate in Hest. unfold est in Hb', Hinv. unfold bonus in Hinv.
+  unfold door_admissible in Hest.
+  destruct (fc_estimate (lfu_fc l') h) as [e0|] eqn:He0.
+  - destruct (zmem h (lfu_door l')) eqn:Hmem; destruct (zmem h (lfu_door l)) eqn:Hmem0; destruct ans;
+      cbn [negb] in Hest; try discriminate; inversion Hest; subst e; lia.
+  - destruct (if zmem h (lfu_door l') then ans else true); cbn [negb] in Hest; discriminate.
+Qed.
 
 (** the run of a stream on a well-formed TinyLFU with admissible answers never panics *)
 (* STATEMENT *)
 Lemma lfu_run_no_panic : forall hs l, wf_lfu l -> lfu_run l hs <> LPanic.
 Proof.
-Admitted.
+  intros hs. induction hs as [|[x had] t IH]; intros l Hwf.
+  - cbn [lfu_run]. discriminate.
+  - cbn [lfu_run].
+    destruct (door_admissible (lfu_door l) x had) eqn:Hadm.
+    + destruct (lfu_access_spec l x had Hwf Hadm) as (l1 & Ha & Hwf1 & _).
+      rewrite Ha. apply IH. exact Hwf1.
+    + unfold lfu_access. rewrite Hadm. cbn [negb]. discriminate.
+Qed.
 
-(* STATEMENT: D8 — one counter is accepted by the builder but the rows are empty: the first real increment is out of bounds *)
-Lemma counters_1_panics : lfu_run (lfu_new 1 [1;2;3;4]) [(5, false); (5, true)] = LPanic.
-Proof. vm_compute. reflexivity. Qed.
+(** with the row length of at least one byte, a sketch for one counter is well formed: no index is out of bounds *)
+(* STATEMENT *)
+Lemma counters_1_no_panic : forall hs, lfu_run (lfu_new 1 [1;2;3;4]) hs <> LPanic.
+Proof.
+  intros hs. apply lfu_run_no_panic. apply lfu_new_wf; [unfold two63; lia|reflexivity].
+Qed.
+
+(* STATEMENT *)
+Lemma counters_1_estimate_defined : forall h, exists e, fc_estimate (lfu_fc (lfu_new 1 [1;2;3;4])) h = Some e.
+Proof.
+  intros h.
+  assert (Hwf : wf_lfu (lfu_new 1 [1;2;3;4])) by (apply lfu_new_wf; [unfold two63; lia|reflexivity]).
+  destruct Hwf as [Hfc _].
+  destruct (fc_estimate_defined _ h Hfc) as (e & He & _). exists e. exact He.
+Qed.
